@@ -94,7 +94,12 @@ pub fn make_builder_cb(
                 } else {
                     let mut s = DynSys::new(ctx, *sid, reads, writes, *hint);
                     s.acc.expect = *expect;
-                    b.add(s, name, &d);
+                    // every third such system leaves `System::setup` to the library's default
+                    if *sid % 3 == 2 {
+                        b.add(DynSysDefaultSetup(s), name, &d);
+                    } else {
+                        b.add(s, name, &d);
+                    }
                 }
                 *sid += 1;
             }
